@@ -1,0 +1,20 @@
+//go:build verif
+
+package mp4
+
+import "sort"
+
+// VerifRegisteredBoxTypes returns the key sets of the two box decoder dispatch
+// tables (io.Reader path and SliceReader path). Only compiled with the verif
+// build tag; used by the verification harness for coverage accounting.
+func VerifRegisteredBoxTypes() (reader, sliceReader []string) {
+	for k := range decoders {
+		reader = append(reader, k)
+	}
+	for k := range decodersSR {
+		sliceReader = append(sliceReader, k)
+	}
+	sort.Strings(reader)
+	sort.Strings(sliceReader)
+	return reader, sliceReader
+}
